@@ -8,7 +8,7 @@ def mon_histories(tier, b):
     quick = tier == "quick"
     prof = {"lifetimes": [604800, 604800, 3000, 500, 100, 1, 0], "p_alrm": 0.08, "p_term_restart": 0.08, "max_msgs": 4,
             "conc": [1, 2, 5, 10], "spawn": [1, 3, 120]}
-    res = histrun.run("C15", b, core.scaled(300 if quick else 5000), prof, ["RetryOracle"], salt="h")
+    res = histrun.run("C15", b, core.scaled(1000 if quick else 10000), prof, ["RetryOracle"], salt="h")
     res.violations = [v for v in res.violations if v["key"].startswith("C15/")]
     res.counters["retry_histories"] = res.evaluations
     return res
